@@ -1425,7 +1425,8 @@ class AnsiString:
             obj = obj[:idx] + replace + obj[idx+len(old):]
             if count > 0:
                 count -= 1
-            idx = obj._s.find(old, idx + len(new))
+            # (an empty search string matches at every position - step over one character like str.replace)
+            idx = obj._s.find(old, idx + len(new) + (0 if old else 1))
 
         if inplace:
             self._s = obj._s
